@@ -20,6 +20,12 @@ class SimFile(object):
 
     def read(self, n=-1):
         self._chk()
+        fs = self.fs
+        if fs.fail_read_at is not None and self.path.startswith(fs.fail_read_prefix):
+            fs.nreads += 1
+            if fs.nreads == fs.fail_read_at:
+                fs.sim.bump('fs.read_error')
+                raise OSError(errno.EIO, _os.strerror(errno.EIO))
         if n is None or n < 0:
             n = len(self.data) - self.pos
         b = bytes(self.data[self.pos:self.pos + n])
@@ -99,6 +105,9 @@ class SimFS(object):
         self.ntemp = 0
         self.inside_get_file = 0
         self.fds = []
+        self.fail_read_at = None
+        self.fail_read_prefix = '/'
+        self.nreads = 0
 
     # -- builtins.open replacement
     def open(self, path, mode='r', *a, **k):
